@@ -51,12 +51,19 @@ fn main() {
             if args.len() != 4 {
                 usage();
             }
-            props::child_optimize(&args[2], &args[3]);
+            props::child::child_optimize(&args[2], &args[3]);
+        }
+        "child-run" => {
+            if args.len() != 5 {
+                usage();
+            }
+            props::child::child_run(&args[2], &args[3], &args[4]);
         }
         "replay" => {
             if args.len() != 4 {
                 usage();
             }
+            detach_stdin();
             let id = args[2].clone();
             let ctx = make_ctx(&id, Tier::Thorough, true);
             install_traps(&id, &ctx.verif.join("failures"));
@@ -99,6 +106,7 @@ fn main() {
             if args.len() != 4 {
                 usage();
             }
+            detach_stdin();
             let id = args[2].clone();
             let tier = match args[3].as_str() {
                 "quick" => Tier::Quick,
@@ -113,6 +121,20 @@ fn main() {
             std::process::exit(code);
         }
         _ => usage(),
+    }
+}
+
+/// the code under test is wired to the process's real stdin in places (optimize): make sure a stray read
+/// can never block the harness or eat somebody's input
+fn detach_stdin() {
+    unsafe {
+        let fd = libc::open(b"/dev/null\0".as_ptr() as *const libc::c_char, libc::O_RDONLY);
+        if fd >= 0 {
+            libc::dup2(fd, 0);
+            if fd != 0 {
+                libc::close(fd);
+            }
+        }
     }
 }
 
